@@ -17,6 +17,9 @@ type RecEmitter struct {
 func (e *Env) Em(i int) cff.Emitter { return e.Ems[i] }
 
 func (r *RecEmitter) rec(name, ev string, err error, pv interface{}) {
+	if r.env.Race {
+		return
+	}
 	e := Event{Kind: "emit", Unit: -1, Elem: -1, Idx: -1, Em: r.idx, Name: name, Ev: ev, Err: err, PV: pv, Start: Seq(), Gid: Gid()}
 	if err != nil {
 		e.ErrS = err.Error()
